@@ -27,7 +27,7 @@ SPEC = {
 }
 
 META = {
-    "engine": "lib-rapid",
+    "engine": "lib-rapid", "also": ["bb-server"],
     "technique": "property-based testing (rapid; library campaigns plus real-server scenarios) of the retention service's expiry selection against the arithmetic of the statement, over generated catalogues and ALTER histories, relative to the wall clock with wide margins",
     "text": ("The real retention service, the real engine's expiry test for not-loaded and open shards and the meta client's expired-group query must select for deletion exactly the shard groups "
              "whose span ended more than the policy's current duration ago; unlimited policies never lose groups; lengthening before a round keeps the group; expired groups leave the catalogue. "
